@@ -39,7 +39,7 @@ class ProgGen:
     def program(self):
         r = self.rng
         setup, ids = [], []
-        for _ in range(r.randint(1, 4)):
+        for _ in range(r.choice([0, 1, 1, 2, 2, 3, 3, 4, 4, 4])):      # sometimes an EMPTY level: the first adds race
             oid, o = self.order()
             setup.append("ADD " + o)
             ids.append(oid)
